@@ -7,7 +7,7 @@ formula across the package); name entries (absolute DIE offset, insertion order,
 import ast
 from sa.canon import U
 from sa.world import get_world
-from sa import dwconf, layout, expr, paths, streams, dispatch, hrules
+from sa import dwconf, layout, expr, paths, streams, dispatch, hrules, owner
 from sa.report import AnalysisError
 from spec import dwarf as D
 
@@ -27,8 +27,11 @@ def run(ctx):
     ctx.assumptions += ['the first-tuple padding uses float ceil: value arithmetic, not decided', 'overlapping ranges are outside the claim']
     for r, d in (('L-CONF', 'set header layouts'), ('E-i', 'walk and offset formulas'), ('SIB', 'unit-extent formula agrees across the package'),
                  ('J-BISECT', 'bisect lookups are guarded and paired with the right probe index'), ('E-iii', 'hit conditions'),
-                 ('W-LUT', 'name table construction'), ('H-CUR', 'cursor discipline')):
+                 ('W-LUT', 'name table construction'), ('H-CUR', 'cursor discipline'),
+                 ('G-OWNER', 'the address size of a set comes from the set header')):
         ctx.rule(r, d)
+    ctx.guard('G-OWNER', 'set headers', owner.gowner_headers, ctx, w, ('dwarf/aranges.py', 'dwarf/namelut.py'))
+    ctx.floor('G-OWNER', 2)
     ctx.guard('L-CONF', 'aranges', dwconf.check_struct, ctx, w, 'Dwarf_aranges_header', D.ARANGES_HEADER)
     ctx.guard('L-CONF', 'nameLUT', dwconf.check_struct, ctx, w, 'Dwarf_nameLUT_header', D.NAMELUT_HEADER)
     ctx.guard('L-CONF', 'entries', check_entry_structs, ctx, w)
@@ -260,6 +263,7 @@ def check_bisect(ctx, w):
 
 
 MUTANTS = [
+    ('aranges-pad-container-size', 'dwarf/aranges.py', 'tuple_size = aranges_header["address_size"] * 2', 'tuple_size = self.structs.address_size * 2', 'G-OWNER'),
     ('aranges-offset-width', 'dwarf/structs.py', "            self.Dwarf_offset('debug_info_offset'), # a little tbd", "            self.Dwarf_uint32('debug_info_offset'), # a little tbd", 'L-CONF'),
     ('namelut-length', 'dwarf/structs.py', "self.Dwarf_length('debug_info_length')", "self.Dwarf_uint32('debug_info_length')", 'L-CONF'),
     ('hdr-cu-ofs-dropped', NL, "die_ofs = hdr_cu_ofs + entry.die_ofs)", "die_ofs = entry.die_ofs)", 'W-LUT'),
